@@ -20,6 +20,7 @@ import (
 	"fmt"
 	"math"
 	"os"
+	"regexp"
 	"runtime/debug"
 	"sort"
 	"strconv"
@@ -334,6 +335,9 @@ func c09Ops(big bool) []string {
 		"LC", "LCs", "FC", "FCs", "MO", "MF", "RO"}
 }
 
+// c09SegRows: rows per segment of every file the histories write (see TestVerifC09).
+const c09SegRows = 2
+
 // c09Apply executes one op on the shard and on the model (writes of the C09 menu here, everything else by vApply).
 func c09Apply(v *vShard, m vModel, op string, id int) error {
 	base, flush := c09Base(op)
@@ -369,7 +373,7 @@ func c09Apply(v *vShard, m vModel, op string, id int) error {
 		// vSetupEngineKnobs as soon as one series merges more than 2 rows in two steps (minimal: "WB WEF WNF MO").
 		// Not this property (reported to the lead); the merge itself runs with 8-row segments here.
 		immutable.SetMaxRowsPerSegment4TsStore(8)
-		defer immutable.SetMaxRowsPerSegment4TsStore(2)
+		defer immutable.SetMaxRowsPerSegment4TsStore(c09SegRows)
 	}
 	return vApply(v, m, op, id)
 }
@@ -570,6 +574,7 @@ func c09Variants(level int) []c09Variant {
 		{Name: "byhost_desc", ByHost: true, Desc: true},
 		{Name: "filter_byhost", Filter: true, ByHost: true},
 		{Name: "bucket2s_desc", Bucket: 2, Desc: true},
+		{Name: "filter_bucket2s", Filter: true, Bucket: 2},
 	}
 	if full {
 		vs = append(vs,
@@ -972,6 +977,22 @@ func c09Diff(exp map[c09GroupKey][]vVal, got map[c09GroupKey]vVal) []string {
 
 // ---- per-state oracle ------------------------------------------------------------------------------
 
+// c09LogViolation: development aid (VERIF_C09_VIOLOG=<path prefix>): every catch-all violation (kind *_mismatch; every
+// violation with VERIF_C09_VIOLOG_ALL) of a worker is appended to <prefix>.<shard>, uncapped (the report keeps 8 per
+// kind and worker).
+func c09LogViolation(kind, key string, diffs []string) {
+	prefix := os.Getenv("VERIF_C09_VIOLOG")
+	if prefix == "" || (!strings.HasSuffix(kind, "_mismatch") && os.Getenv("VERIF_C09_VIOLOG_ALL") == "") {
+		return
+	}
+	f, err := os.OpenFile(prefix+"."+kit.Getenv("VERIF_SHARD", "0"), os.O_APPEND|os.O_CREATE|os.O_WRONLY, 0o644)
+	if err != nil {
+		return
+	}
+	defer f.Close()
+	fmt.Fprintf(f, "%s\t%s\t%s\n", kind, key, strings.Join(diffs, "; "))
+}
+
 // c09DevPrint: development aid (C09_DEV_OPS without C09_DEV_Q): print every mismatch of one state instead of recording it.
 var c09DevPrint func(variant, rng string, c c09AggField, diffs []string)
 
@@ -986,21 +1007,33 @@ type c09State struct {
 	crossGen bool
 	layout   string
 	level    int // query-set level
+	// descExposed: the state has at least two ordered files and rows outside them (an out-of-order file or memtable
+	// rows) - the layouts in which a descending scan hands those rows out at the wrong position (see c09Kind)
+	descExposed bool
 }
 
-// c09Kind classifies a mismatch. Four defect classes have their own kind (the classification uses only the
-// statement's shape, the state's cross-generation flag and the two answers):
+// c09Kind classifies a mismatch. Six defect classes have their own kind (the classification uses only the
+// statement's shape, facts of the state - cross-generation flag, file layout - and the two answers):
 //
 //	<call>_value_of_wrong_series            first/last over several series answered with the first/last value of the
 //	                                        wrong series (per-series candidates compared on wrong timestamps)
 //	first_last_under_order_by_time_desc     first/last of a statement with ORDER BY time DESC
-//	duplicate_rows_under_order_by_time_desc count/sum/mean/min/max of a statement with ORDER BY time DESC in a state whose
-//	                                        history overwrote a key across flush generations
+//	duplicate_rows_under_order_by_time_desc count/sum/mean/min/max of a statement with ORDER BY time DESC in a state with
+//	                                        two or more ordered files plus out-of-order/memtable rows whose history overwrote
+//	                                        a key across flush generations
+//	rows_in_wrong_bucket_under_order_by_time_desc
+//	                                        the same layouts without a cross-generation overwrite, GROUP BY time + ORDER BY
+//	                                        time DESC: rows are counted in the bucket of another row (count/sum: the total over
+//	                                        the buckets is that of the rows; min/max: every value is a bucket's value of the rows)
+//	sum_at_time_of_earlier_null_row         sum(x) with a field filter and GROUP BY time, x null in a row the filter passes:
+//	                                        the total over the buckets is that of the rows, but sums are reported in (or added
+//	                                        to) other buckets
 //	group_missing_after_filter_group_by_tag field filter + GROUP BY tag: groups are missing from the answer, the groups that
 //	                                        are present agree
 //
 // everything else: <call>_<preagg_path|rows_path>_mismatch.
-func c09Kind(va c09Variant, c c09AggField, crossGen bool, rows []c09Row, exp map[c09GroupKey][]vVal, got map[c09GroupKey]vVal) string {
+func c09Kind(va c09Variant, c c09AggField, st c09State, rows []c09Row, exp map[c09GroupKey][]vVal, got map[c09GroupKey]vVal) string {
+	crossGen := st.crossGen
 	path := "rows_path"
 	if va.lenient() {
 		path = "preagg_path"
@@ -1014,11 +1047,16 @@ func c09Kind(va c09Variant, c c09AggField, crossGen bool, rows []c09Row, exp map
 		return false
 	}
 	isFL := c.Agg == "first" || c.Agg == "last"
+	if c.Agg == "sum" && va.Filter && va.Bucket > 0 && !va.Multi && c09NullInRows(rows, c.Field) && c09Regrouped(c, exp, got) {
+		return "sum_at_time_of_earlier_null_row"
+	}
 	switch {
 	case va.Desc && isFL:
 		return "first_last_under_order_by_time_desc"
-	case va.Desc && crossGen:
+	case va.Desc && st.descExposed && crossGen:
 		return "duplicate_rows_under_order_by_time_desc"
+	case va.Desc && st.descExposed && va.Bucket > 0 && c09Regrouped(c, exp, got):
+		return "rows_in_wrong_bucket_under_order_by_time_desc"
 	}
 	if va.Filter && va.ByHost && len(got) < len(exp) {
 		subset := true
@@ -1060,6 +1098,67 @@ func c09Kind(va c09Variant, c c09AggField, crossGen bool, rows []c09Row, exp map
 	return fmt.Sprintf("%s_%s_mismatch", c.Agg, path)
 }
 
+// c09NullInRows: some row lacks the field (the column is null there).
+func c09NullInRows(rows []c09Row, field string) bool {
+	for _, r := range rows {
+		if _, ok := r.V[field]; !ok {
+			return true
+		}
+	}
+	return false
+}
+
+// c09Regrouped: the answer is what the function gives when the rows of a tag group are distributed over the buckets
+// differently: count/sum - the total over the buckets is preserved; min/max - every reported value is the value the
+// rows give for some bucket of the same tag group; mean - not checkable from the answers.
+func c09Regrouped(c c09AggField, exp map[c09GroupKey][]vVal, got map[c09GroupKey]vVal) bool {
+	switch c.Agg {
+	case "count", "sum":
+		type tot struct {
+			f float64
+			i int64
+		}
+		te, tg := map[string]tot{}, map[string]tot{}
+		for k, cands := range exp {
+			if len(cands) != 1 {
+				return false
+			}
+			t := te[k.Host]
+			te[k.Host] = tot{t.f + cands[0].F, t.i + cands[0].I}
+		}
+		for k, v := range got {
+			t := tg[k.Host]
+			tg[k.Host] = tot{t.f + v.F, t.i + v.I}
+		}
+		if len(te) != len(tg) {
+			return false
+		}
+		for h, t := range te {
+			if g, ok := tg[h]; !ok || g != t {
+				return false
+			}
+		}
+		return true
+	case "min", "max":
+		for k, v := range got {
+			found := false
+			for ek, cands := range exp {
+				if ek.Host != k.Host {
+					continue
+				}
+				for _, cv := range cands {
+					found = found || c09SameVal(cv, v)
+				}
+			}
+			if !found {
+				return false
+			}
+		}
+		return true
+	}
+	return c.Agg == "mean"
+}
+
 func c09CheckState(rep *kit.Report, v *vShard, st c09State) (failed bool) {
 	key := strings.Join(st.hist, " ")
 	segs, err := c09Segments(v, "m")
@@ -1069,6 +1168,15 @@ func c09CheckState(rep *kit.Report, v *vShard, st c09State) (failed bool) {
 	}
 	mem := strings.HasSuffix(st.layout, "mem")
 	chunks := c09Chunks(segs)
+	orderedFiles, unorderedFiles := map[string]bool{}, map[string]bool{}
+	for _, ch := range chunks {
+		if ch.Order {
+			orderedFiles[ch.File] = true
+		} else {
+			unorderedFiles[ch.File] = true
+		}
+	}
+	st.descExposed = len(orderedFiles) >= 2 && (len(unorderedFiles) > 0 || mem)
 	shape := vLayoutShape(st.layout) + " " + c09SegShape(chunks)
 	if kit.Getenv("C09_SHAPES", "") != "" { // development aid: print the physical shape of every state
 		fmt.Printf("S %s | %s | %s\n", key, shape, st.layout)
@@ -1167,7 +1275,9 @@ func c09CheckState(rep *kit.Report, v *vShard, st c09State) (failed bool) {
 					}
 					if len(diffs) > 0 {
 						nViol++
-						rep.Violation(c09Kind(va, c, st.crossGen, use, exp, got), key+" | "+q,
+						kind := c09Kind(va, c, st, use, exp, got)
+						c09LogViolation(kind, key+" | "+q, diffs)
+						rep.Violation(kind, key+" | "+q,
 							fmt.Sprintf("%s(%s): %s; layout %s; chunks covered %s mem=%v; rows %s", c.Agg, c.Field,
 								strings.Join(diffs, "; "), shape, pattern, mem, c09FmtRows(use)),
 							c09Case{Ops: st.hist, Query: q, Level: st.level})
@@ -1261,6 +1371,10 @@ func TestVerifC09(t *testing.T) {
 	rep := kit.NewReport("C09")
 	defer rep.Save()
 	vSetupEngineKnobs()
+	// 2-row segments: with 4 timestamps per series this is what makes chunks of two segments (and query ranges that
+	// cover one segment and cut the other) reachable. Set here and restored after every out-of-order merge, so that the
+	// layout of a history does not depend on what the worker ran before (a replay sees the layout the explorer saw).
+	immutable.SetMaxRowsPerSegment4TsStore(c09SegRows)
 	_ = logger.SetLevel("error")
 	debug.SetGCPercent(400)
 	executor.EnableFileCursor(true)
@@ -1335,18 +1449,23 @@ func c09Explore(rep *kit.Report, scratch string, ops []string, depth, fullDepth,
 	var prev []int
 	dir := vMkdir(scratch, "sh")
 	names := make([]string, depth)
+	var only *regexp.Regexp // development aid: VERIF_C09_ONLY=<regexp> runs only the histories it matches ("^WRF WNF ")
+	if rx := os.Getenv("VERIF_C09_ONLY"); rx != "" {
+		only = regexp.MustCompile(rx)
+		rep.Cut("VERIF_C09_ONLY=" + rx)
+	}
 	for {
 		sub := 0
 		for i := 0; i < depth && i < 2; i++ {
 			sub = sub*n + seq[i]
 		}
 		bump := depth - 1
-		if kit.Mine(sub) {
+		for i, o := range seq {
+			names[i] = ops[o]
+		}
+		if kit.Mine(sub) && (only == nil || only.MatchString(strings.Join(names, " "))) {
 			if rep.Expired() {
 				return
-			}
-			for i, o := range seq {
-				names[i] = ops[o]
 			}
 			common := 0
 			for prev != nil && common < depth && prev[common] == seq[common] {
